@@ -182,6 +182,55 @@ Proof.
   - destruct (beq (j_name x) n); [discriminate|auto].
 Qed.
 
+(* the Cookie header is ordered: no later entry has a longer Path than an earlier one (RFC 6265 5.4, cookiejar's sort) *)
+Fixpoint path_sorted (l : list jcookie) : Prop :=
+  match l with
+  | [] => True
+  | x :: r => (forall y, In y r -> (length (j_path y) <= length (j_path x))%nat) /\ path_sorted r
+  end.
+
+Lemma insert_by_path_sorted x l : path_sorted l -> path_sorted (insert_by_path x l).
+Proof.
+  induction l as [|y r IH]; cbn; [intros _; split; [intros ? []|exact I]|].
+  intros [Hy Hr]. destruct (Nat.leb (length (j_path y)) (length (j_path x))) eqn:E.
+  - apply Nat.leb_le in E. cbn. split; [|split; assumption].
+    intros z [<-|Hz]; [exact E|]. specialize (Hy z Hz). lia.
+  - apply Nat.leb_gt in E. cbn. split; [|now apply IH].
+    intros z Hz. apply in_insert_by_path in Hz as [->|Hz]; [lia|now apply Hy].
+Qed.
+
+Lemma sort_by_path_sorted l : path_sorted (sort_by_path l).
+Proof. unfold sort_by_path. induction l as [|x r IH]; cbn; [exact I|now apply insert_by_path_sorted]. Qed.
+
+(* http.Request.Cookie on an ordered header: the value read belongs to an entry of that name whose Path is at least as long as
+   that of every other entry of that name in the header *)
+Lemma first_named_sorted_max n l v : path_sorted l -> first_named n l = Some v ->
+  exists e, In e l /\ j_name e = n /\ j_value e = v /\
+            forall e', In e' l -> j_name e' = n -> (length (j_path e') <= length (j_path e))%nat.
+Proof.
+  induction l as [|x r IH]; cbn; [discriminate|]. intros [Hx Hr] H.
+  destruct (beq (j_name x) n) eqn:E.
+  - apply beq_eq in E. injection H as <-. exists x. split; [now left|]. split; [exact E|]. split; [reflexivity|].
+    intros e' [<-|He'] _; [lia|now apply Hx].
+  - apply beq_neq in E. destruct (IH Hr H) as (e & He & Hn & Hv & Hmax). exists e. split; [now right|]. split; [exact Hn|].
+    split; [exact Hv|]. intros e' [<-|He'] Hn'; [contradiction|now apply Hmax].
+Qed.
+
+(* the cookie of a given name that the server reads from a request is the most specific one the jar sends: it is live, matches
+   the URL, and no other live matching cookie of that name has a longer Path *)
+Lemma jar_cookie_most_specific trust now u j n v : jar_cookie trust now u j n = Some v ->
+  exists e, In e j /\ live now e = true /\ should_send trust u e = true /\ j_name e = n /\ j_value e = v /\
+            forall e', In e' j -> live now e' = true -> should_send trust u e' = true -> j_name e' = n ->
+                       (length (j_path e') <= length (j_path e))%nat.
+Proof.
+  unfold jar_cookie, jar_select. intros H.
+  destruct (first_named_sorted_max n _ v (sort_by_path_sorted _) H) as (e & He & Hn & Hv & Hmax).
+  apply (proj1 (in_sort_by_path _ _)) in He. apply filter_In in He as [He Hf]. apply andb_true_iff in Hf as [Hl Hs].
+  exists e. repeat (split; [assumption|]).
+  intros e' He' Hl' Hs' Hn'. apply Hmax; [|exact Hn'].
+  apply (proj2 (in_sort_by_path _ _)). apply filter_In. split; [exact He'|]. now rewrite Hl', Hs'.
+Qed.
+
 (* no cookie of that name in the jar: none is sent, to any URL, at any time *)
 Lemma no_named_not_sent n j trust now u : no_named n j -> jar_cookie trust now u j n = None.
 Proof.
